@@ -54,7 +54,7 @@ Print Assumptions C03_discard_only_if.
 (* non-vacuity: a run with one accepted and one discarded call (back end full when the second
    record needs a new packet) *)
 Example C03_example :
-  let w := run d_s18 16 [] [default_ans; default_ans; mk_ans true None None 1] 
+  let w := run d_s18 16 [] [default_ans; default_ans; mk_ans true None None 1 false] 
                [COpen; CTrace 0 [VArr [VInt 1]]; CTrace 0 [VArr [VInt 2]]] in
   w_err w = false /\ c_disc (w_c w) = 1 /\ ndisc (w_log w) = 1.
 Proof. vm_compute. repeat split. Qed.
